@@ -190,8 +190,15 @@ def run(ctx):
                 if op == "==" and const_val(r) == 110 and \
                         L.deep_find(ig, l, is_call_to(r"^__errno_location$")) is not None:
                     return True
-            if pol and L.deep_find(ig, atom, is_call_to(r"^absl::.*(DurationFromTimespec|GetCurrentTimeNanos)$"),
-                                   through_args=True) is not None:
+            # a comparison of the recomputed remaining time: absl::Duration relational operator, or an integer comparison of
+            # nanosecond values - never a null test of the timeout pointer (which also derives from the recomputed timespec)
+            a = strip_cast(atom)
+            n_ = ig.ev_of(a) if isinstance(a, dict) else None
+            is_rel = n_ is not None and n_.ev["e"] == "call" and re.search(r"operator(<=|<|>=|>)$", n_.ev.get("callee", "") or "")
+            if c is not None and c[0] in ("<", "<=", ">", ">=") and const_val(c[2]) != "null":
+                is_rel = True
+            if is_rel and L.deep_find(ig, atom, is_call_to(r"^absl::.*(DurationFromTimespec|GetCurrentTimeNanos)$"),
+                                      through_args=True) is not None:
                 return True
             return False
         te = L.cond_edges(ig, timeout_exit, live)
@@ -362,3 +369,9 @@ def run(ctx):
         # no spinning wait (usleep loop without deadline) may be reached
         spins = [n for n in L.call_nodes(ig, name="usleep", live=live)]
         ctx.ob("C02.R5c", inst, not spins, fn.loc, "timed pop reaches the untimed spin-wait path")
+
+
+SWEEP = ["concurrent/test_bounded_queue.cpp",
+         "concurrent/test_bounded_queue_press_mpmc.cpp",
+         "concurrent/test_sched_interface.cpp",
+         "test_executor.cpp"]
